@@ -40,6 +40,9 @@ pub enum S {
     TupleStruct(Vec<S>),
     TupleVariant(Vec<S>),
     Map(Vec<(S, S)>),
+    /// a map written through `SerializeMap::serialize_entry` (what the std collections and
+    /// `#[serde(flatten)]` use); a repeated key keeps the last value, as in serde_json
+    MapEntries(Vec<(S, S)>),
     /// serialize_value before any serialize_key (protocol misuse by a hand-written impl)
     MapValueFirst(Box<S>),
     Struct(Vec<(&'static str, S)>),
@@ -117,6 +120,13 @@ impl Serialize for S {
                 }
                 q.end()
             }
+            S::MapEntries(es) => {
+                let mut q = z.serialize_map(None)?;
+                for (k, v) in es {
+                    q.serialize_entry(k, v)?;
+                }
+                q.end()
+            }
             S::MapValueFirst(v) => {
                 let mut q = z.serialize_map(Some(1))?;
                 q.serialize_value(&**v)?;
@@ -173,6 +183,44 @@ enum Exp {
     IfOk(MV),
     /// only "never panics" is demanded
     Any,
+}
+
+/// entries with a key that converts to the very same map key as a later entry are superseded by it
+fn dedup_last(es: &[(S, S)]) -> Option<Vec<(S, S)>> {
+    let keys: Option<Vec<MK>> = es.iter().map(|(k, _)| key_of(k)).collect();
+    let keys = keys?;
+    let mut out = vec![];
+    for (i, e) in es.iter().enumerate() {
+        if !keys[i + 1..].contains(&keys[i]) {
+            out.push(e.clone());
+        }
+    }
+    Some(out)
+}
+
+fn expected_repeated(es: &[(S, S)]) -> Exp {
+    match dedup_last(es) {
+        Some(d) => {
+            // a superseded entry is still converted: it may fail, or weaken the verdict
+            let all: Vec<Exp> = es.iter().map(|(_, v)| expected(v)).collect();
+            if all.iter().any(|c| *c == Exp::Any) {
+                return Exp::Any;
+            }
+            let weak = all.iter().any(|c| !matches!(c, Exp::Must(_)));
+            match expected(&S::Map(d)) {
+                Exp::Must(v) if weak => Exp::IfOk(v),
+                other => other,
+            }
+        }
+        None => Exp::Any,
+    }
+}
+
+fn has_repeated_key(es: &[(S, S)]) -> bool {
+    match dedup_last(es) {
+        Some(d) => d.len() != es.len(),
+        None => false,
+    }
 }
 
 fn key_of(s: &S) -> Option<MK> {
@@ -258,6 +306,9 @@ fn expected(s: &S) -> Exp {
         S::NewtypeVariant(x) => lift(vec![expected(x)], |mut v| single("NV", v.remove(0))),
         S::Seq(vs) | S::Tuple(vs) | S::TupleStruct(vs) => lift(vs.iter().map(expected).collect(), MV::List),
         S::TupleVariant(vs) => lift(vs.iter().map(expected).collect(), |v| single("TV", MV::List(v))),
+        S::MapEntries(es) if !has_repeated_key(es) => expected(&S::Map(es.clone())),
+        S::MapEntries(es) => expected_repeated(es),
+        S::Map(es) if has_repeated_key(es) => expected_repeated(es),
         S::Map(es) => {
             let mut keys = vec![];
             for (k, _) in es {
@@ -265,12 +316,6 @@ fn expected(s: &S) -> Exp {
                     Some(mk) => keys.push(mk),
                     None => return Exp::Any, // unsupported key kind: an error (checked: never a panic)
                 }
-            }
-            let mut d = keys.clone();
-            d.sort();
-            d.dedup();
-            if d.len() != keys.len() {
-                return Exp::Any;
             }
             lift(es.iter().map(|(_, v)| expected(v)).collect(), move |vals| {
                 let mut out: Vec<(MK, MV)> = keys.into_iter().zip(vals).collect();
@@ -324,6 +369,14 @@ fn json_native(s: &S) -> bool {
         S::Some(x) | S::NewtypeVariant(x) => json_native(x),
         S::NewtypeStruct(n, x) => *n != DUR_MARKER && *n != TS_MARKER && json_native(x),
         S::Seq(v) | S::Tuple(v) | S::TupleStruct(v) | S::TupleVariant(v) => v.iter().all(json_native),
+        S::MapEntries(es) => match dedup_last(es) {
+            Some(d) => es.iter().all(|(_, v)| json_native(v)) && json_native(&S::Map(d)),
+            None => false,
+        },
+        S::Map(es) if has_repeated_key(es) => match dedup_last(es) {
+            Some(d) => es.iter().all(|(_, v)| json_native(v)) && json_native(&S::Map(d)),
+            None => false,
+        },
         S::Map(es) => {
             let mut texts: Vec<String> = vec![];
             for (k, v) in es {
@@ -381,6 +434,7 @@ fn kind(s: &S) -> &'static str {
         S::TupleStruct(_) => "tuple_struct",
         S::TupleVariant(_) => "tuple_variant",
         S::Map(_) => "map",
+        S::MapEntries(_) => "map-entries",
         S::MapValueFirst(_) => "map-value-first",
         S::Struct(_) | S::NamedStruct(..) => "struct",
         S::StructVariant(_) => "struct_variant",
@@ -471,6 +525,10 @@ fn unary(x: &S) -> Vec<S> {
         S::NewtypeStruct(DUR_MARKER, b(x)),
         S::NewtypeStruct(TS_MARKER, b(x)),
         S::MapValueFirst(b(x)),
+        S::MapEntries(vec![(S::Str("k".into()), x.clone())]),
+        S::MapEntries(vec![(S::Str("k".into()), x.clone()), (S::Str("k".into()), S::I8(1))]),
+        S::MapEntries(vec![(S::Str("k".into()), S::I8(1)), (S::Str("j".into()), S::I8(2)), (S::Str("k".into()), x.clone())]),
+        S::Map(vec![(S::I8(1), S::I8(1)), (S::I64(1), x.clone())]),
         S::NamedStruct("Duration", vec![("secs", x.clone()), ("nanos", S::I64(0))]),
     ]
 }
@@ -484,6 +542,8 @@ fn binary(x: &S, y: &S) -> Vec<S> {
         S::Struct(vec![("a", x.clone()), ("b", y.clone())]),
         S::StructVariant(vec![("b", y.clone()), ("a", x.clone())]),
         S::TupleVariant(vec![x.clone(), y.clone()]),
+        S::MapEntries(vec![(S::Str("a".into()), x.clone()), (S::Str("b".into()), y.clone())]),
+        S::MapEntries(vec![(S::Bool(true), x.clone()), (S::Bool(true), y.clone())]),
     ]
 }
 
